@@ -150,6 +150,7 @@ def run(ck, ctx):
     for adt, fields in (("asm::ObjectFile", {"block_map", "sym"}), ("asm::SymbolTable", {"label_map", "rel_map", "debug_symbols"}), ("asm::DebugSymbols", {"line_map", "src_info"})):
         ck.ob("C17.4", "rebuilt-fields:" + adt.split("::")[-1], set(final.get(adt, {})) == fields, "%s built with fields %s" % (adt, sorted(final.get(adt, {}))), "src/asm/encoding.rs")
     ck.ob("C17.4", "nl_indices-recomputed", discharge.source_info_inv(F), "SourceInfo.nl_indices is never serialised; it is recomputed by from_string on both paths", "src/asm.rs")
+    ck.include("C24", ctx, "C17.4", {"C24.1", "C24.2"}, "the reader's strictly-increasing validator accepts what the producer records")
     ck.assume("an empty symbol table without debug symbols is read back as `sym: None` (not producible by assemble*/link of assembled files)")
     ck.assume("the reader's validators accept what producers emit: strictly increasing addresses per line block (C24)")
     ck.assume("HashMap/BTreeMap insertions with distinct keys reproduce the maps (keys are unique in a map by construction)")
